@@ -56,7 +56,12 @@ def handleForest (c : Case) : String := Id.run do
         cmp c.id "onforest" (showNats ((List.range g.m).map fun e => if fi.isOnForest e then 1 else 0)) (showNats onf),
         cmp c.id "dim" (toString fi.dim) (toString dim),
         cmp c.id "k" (toString fi.k) (toString k)]
-      match checks.filterMap id with
+      -- copies of the index (copy construction, assignment over an index of another graph) are the same value
+      let expect := s!"index {showNats fi.index} rev {showNats fi.reverse} onforest {showNats ((List.range g.m).map fun e => if fi.isOnForest e then 1 else 0)} dim {fi.dim} k {fi.k}"
+      let squash (ws : List String) : String := " ".intercalate (ws.filter (· ≠ ""))
+      let copies := (["assigned", "copied"].filterMap fun tag =>
+        (findLine tag rest).bind fun l => cmp c.id tag (squash (expect.splitOn " ")) (squash l))
+      match checks.filterMap id ++ copies with
       | d :: _ => return d
       | [] => return s!"ok {c.id} {g.n} {g.m} {fi.dim} {fi.k}"
     | _, _, _, _, _, _, _, _ => return s!"diff {c.id} parse-forest-lines"
